@@ -102,3 +102,13 @@ package fastforward
 //@   ensures calls(fwdExchange) == 1 && arg(fwdExchange, 0, 3) == us
 //@   ensures result == ret(fwdExchange, 0, 1) && (result == nil ==> calls(SetResponse) == 1 && arg(SetResponse, 0, 1) == ret(fwdExchange, 0, 0))
 //@   ensures result != nil ==> calls(SetResponse) == 0
+
+// QuickConfigureExec (C14): picking upstreams by tag builds a NEW list; the plugin's own upstream
+// list (shared with Exec and with every other executable built from this plugin) and everything
+// else reachable is left untouched (empty frame), so concurrent queries never see a changing list.
+//@ func (f *Forward) QuickConfigureExec [C14]
+//@   requires f != nil
+//@   ensures result_1 == nil ==> result_0 != nil
+//@   ensures len(args) == 0 ==> result_1 == nil
+//@   loop 0:
+//@     invariant f != nil && (us.ref == 0 || fresh(us.ref))
